@@ -44,7 +44,7 @@ CHECKS["C01"] = {
     "technique": "exhaustive bounded enumeration of wiring programs x insertion orders x tick histories on the real engine, "
                  "checked by a static rank check, a lifecycle-observer monitor and a per-cycle reference interpreter",
     "design_ref": "DESIGN.md 2/C01",
-    "parts": [{"name": "graphx", "exe": "c01_order", "sources": ["c01_order.cpp"], "shards": 16},
+    "parts": [{"name": "graphx", "exe": "c01_order", "sources": ["c01_order.cpp"], "shards": {"quick": 16, "thorough": 256}},
               {"name": "pause", "exe": "c01_pause", "sources": ["c01_pause.cpp"], "shards": 8}],
     "rule": "every canonical DAG program of <= N statements over {int source, bool source, 1/2/3-input compute, stateful accumulator, "
             "to_tsl/to_tsb structural source + collection reader, if_then_else (REF), nested_<G> and inlined wire<G> of 4 bodies up to "
@@ -76,7 +76,7 @@ CHECKS["C06"] = {
     "technique": "exhaustive bounded enumeration of programs with duplicated / near-duplicated statements x every insertion order x tick "
                  "histories on the real engine; differential across orders + reference interpreter + node-count lower bound",
     "design_ref": "DESIGN.md 2/C06",
-    "parts": [{"name": "twins", "exe": "c01_order", "sources": ["c01_order.cpp"], "sub": "c06", "shards": 16},
+    "parts": [{"name": "twins", "exe": "c01_order", "sources": ["c01_order.cpp"], "sub": "c06", "shards": {"quick": 16, "thorough": 256}},
               {"name": "ports", "exe": "c06_ports", "sources": ["c06_ports.cpp"], "shards": 16}],
     "rule": "every base DAG program of <= N statements (vocabulary of C01 without inlining) with one statement duplicated in each of four "
             "ways — exact twin (same definition, inputs, scalars: may be shared), scalar variant, input variant, passive() marker on one "
